@@ -50,8 +50,27 @@ Expected(e, P) ==
 
 OrderFree(e) == e.op \in {"Replicate"}
 
+\* Transitions recorded while the repository's own tests run (harness/testrecorder.py) carry the field `recorded`.
+\* Their inputs were not chosen by the specification, so the domain of the property is checked here: representable
+\* numbers, consistent structures on both sides, a consistent expected result (e.g. no two atoms with one identity),
+\* and no exception (a test may provoke one on purpose).  Outside the domain the verdict is `blocked:`.
+Recorded(e) == "recorded" \in DOMAIN e
+DomainProblem(e) ==
+  IF e.exc # "none" THEN "exception (the test may provoke it on purpose)"
+  ELSE IF e.other.wf # "ok" \/ ~WFK(e.other) THEN "other structure not representable"
+  ELSE IF ~ConsistentA(Abs(e.pre)) THEN "inconsistent structure"
+  ELSE IF e.op \in {"Extend", "ExtendTypes"} /\ ~ConsistentA(AbsT(e.other, "new")) THEN "inconsistent other structure"
+  ELSE IF e.op = "Extend" /\ \E v \in Range(e.map) : <<v[2][1], v[2][2]>> \notin Keys(Abs(e.pre)) \/ v[1] + 1 \notin 1..Len(e.other.q) THEN "identity map out of range"
+  ELSE IF e.op = "Delete" /\ \E kk \in Range(e.keys) : <<kk[1], kk[2]>> \notin Keys(Abs(e.pre)) THEN "deleted atom unknown"
+  ELSE IF e.op = "Pop" /\ (Len(e.pre.q) = 0 \/ e.i >= Len(e.pre.q) \/ e.i < -Len(e.pre.q)) THEN "index out of range"
+  ELSE IF e.op = "Subset" /\ \E n \in DOMAIN e.ixs : e.ixs[n] \notin 0..(Len(e.pre.q) - 1) THEN "index out of range"
+  ELSE IF e.op = "Replicate" /\ (e.pre.cell = <<>> \/ \E d \in 1..3 : e.dims[d] < 1) THEN "no cell"
+  ELSE IF ~ConsistentA(Expected(e, Abs(e.pre))) THEN "expected result inconsistent (e.g. two atoms with one identity)"
+  ELSE ""
+
 Judge(e) ==
   IF e.pre.wf # "ok" \/ ~WFK(e.pre) THEN "blocked:pre-state-malformed"
+  ELSE IF Recorded(e) /\ DomainProblem(e) # "" THEN "blocked:recorded call outside the property's domain: " \o DomainProblem(e)
   ELSE IF e.exc # "none" THEN "no-exception"
   ELSE IF e.wf # "ok" THEN "projection"
   ELSE IF ~WFK(e.post) THEN "one-entry-per-atom-and-term"
